@@ -6,6 +6,7 @@ package main
 import (
 	"bytes"
 	"encoding/base32"
+	"errors"
 	"fmt"
 	"net"
 	"os"
@@ -667,6 +668,101 @@ func scenarios(cfg *mc.Config, emit func(mc.Scenario)) {
 		}
 		c.Observe("ok", 2)
 	}})
+	// boundary coincidences and end-of-stream paths of one connection:
+	//   exact-segment/<k>: the server's burst is exactly k maximum packets
+	//       (1448 bytes each = the client's per-read buffer), then silence;
+	//   close-with-data/<end>: the server writes and ends; its last bytes
+	//       arrive in the same Read as the end of the stream
+	type edgeT struct {
+		kind string
+		arg  int
+	}
+	for _, e := range []edgeT{{"exact-segment", 1}, {"exact-segment", 2}, {"exact-segment", 16}, {"exact-segment", 17}, {"close-with-data", 0}, {"close-with-data", 1}} {
+		e := e
+		emit(mc.Scenario{Name: fmt.Sprintf("edge/%s/%d", e.kind, e.arg), Weight: 20, Run: func(c *mc.Ctx) {
+			dir := freshDir("edge")
+			rnd.Install(rnd.New(seed, "c15-real-edge"))
+			cf, err := factory(dir)
+			if err != nil {
+				fail(c, "startup", "startup/factory", "%v", err)
+				return
+			}
+			var inbound, got []byte
+			var dialErr, srvErr, rdErr error
+			finished := false
+			res := sched.Run(c, sched.Options{NoPreempt: true, NoEarlyTimers: true, Start: start, MaxSteps: 3_000_000}, func() {
+				s := sched.Cur()
+				cw, sw := wire.Pipe("client", "server")
+				if e.kind == "exact-segment" {
+					inbound = o4h.Pattern('I', 0, e.arg*1427)
+				} else {
+					inbound = o4h.Pattern('I', 0, 100+2*1427)
+				}
+				s.Spawn("ref-server", func() {
+					rs, err := ref.SSServe(sw, ref.SSServerOpts{KB: kB, Priv: rnd.New(seed, "c15-edge-priv").Bytes(192), PadLen: 11, Hour: hour(), Separate: true}, rnd.New(seed, "c15-edge-srv"))
+					if err != nil {
+						srvErr = err
+						sw.Close()
+						return
+					}
+					if e.kind == "exact-segment" {
+						rs.Send(inbound, 0)
+						return // silence
+					}
+					rs.Send(inbound[:100], 7)
+					rs.Send(inbound[100:], 0)
+					if e.arg == 0 {
+						sw.CloseWrite()
+					} else {
+						sw.Out.Err = errors.New("connection reset by peer")
+					}
+				})
+				conn, err := dial(cf, clientArgs(kB), cw)
+				if err != nil {
+					dialErr = err
+					return
+				}
+				if e.kind == "close-with-data" {
+					cw.CoalesceEnd = true
+				}
+				b := make([]byte, 4096)
+				for {
+					n, err := conn.Read(b)
+					got = append(got, b[:n]...)
+					if err != nil {
+						rdErr = err
+						break
+					}
+					if e.kind == "exact-segment" && len(got) >= len(inbound) {
+						break
+					}
+				}
+				finished = true
+			})
+			if len(res.Panics) > 0 {
+				fail(c, "no-panic", "panic/edge", "%s", res.Panics[0])
+				return
+			}
+			if dialErr != nil || srvErr != nil {
+				fail(c, "handshake", "dial-fails/edge", "Dial=%v server=%v", dialErr, srvErr)
+				return
+			}
+			c.Observe("out", fmt.Sprintf("got=%d rd=%v finished=%v", len(got), rdErr, finished))
+			if !bytes.HasPrefix(inbound, got) {
+				fail(c, "stream", "edge/altered", "delivered bytes are not a prefix of what the server wrote")
+				return
+			}
+			if e.kind == "exact-segment" {
+				if !finished || len(got) != len(inbound) {
+					fail(c, "stream", "edge/exact-segment/stuck", "the server wrote %d bytes as exactly %d maximum packets (%d bytes on the wire) and went silent: the client delivered %d (read error %v; blocked %+v)", len(inbound), e.arg, e.arg*1448, len(got), rdErr, res.Blocked)
+				}
+			} else if len(got) != len(inbound) {
+				fail(c, "stream", "edge/close-with-data/lost", "the server wrote %d bytes and ended, its last bytes arriving together with the end of the stream: the client delivered only %d (then %v)", len(inbound), len(got), rdErr)
+			} else if rdErr == nil {
+				fail(c, "stream", "edge/close-with-data/no-end", "the stream ended but Read never reported it")
+			}
+		}})
+	}
 	// (5) histories
 	depth := 4
 	if thorough {
